@@ -526,9 +526,11 @@ def xhist_after_task(task: Dict[str, Any]) -> Dict[str, Any]:
     t0 = time.time()
     adapter = envs.get(task["env"])
     firsts = task["first_cfgs"]
+    from jsim.core import construct as _construct
+
     for k, fc in enumerate(firsts):
-        other_history(adapter, fc, task["seed"] + k)
-    dg = history_digest(adapter, task["cfg"], task["seed"])
+        _construct(other_history, adapter, fc, task["seed"] + k)
+    dg = _construct(history_digest, adapter, task["cfg"], task["seed"])
     return {"task": {"prop": "C02", "env": task["env"], "cfg": task["cfg"]["id"] + "<after>" + "+".join(f["id"] for f in firsts), "shard": task["shard"]},
             "runs": 1, "attempted": 1, "steps": len(dg), "faults": {"OTHER_HISTORY": 1}, "policies": {}, "transports": {"JIT": len(dg)},
             "probes": {}, "checks": {"history_digests": len(dg)}, "states": b"", "n_states": 0, "digests": [], "nontrivial": [], "samples": [],
@@ -566,8 +568,12 @@ def run_task(prop: Any, task: Dict[str, Any]) -> Dict[str, Any]:
     adapter = envs.get(task["env"])
     cfg = task["cfg"]
     t0 = time.time()
-    xh = {"env": task["env"], "cfg": cfg, "role": "solo", "digest": history_digest(adapter, cfg, task["seed"])} if task["shard"] == 0 else None
-    ps = PureSys(adapter, cfg)
+    from jsim.core import construct as _construct
+
+    xh = {"env": task["env"], "cfg": cfg, "role": "solo", "digest": _construct(history_digest, adapter, cfg, task["seed"])} if task["shard"] == 0 else None
+    from jsim.core import construct
+
+    ps = construct(PureSys, adapter, cfg)
     stats = Stats()
     digests: List[int] = []
     nontrivial: List[bool] = []
@@ -673,7 +679,11 @@ def replay(v: Dict[str, Any], path: str) -> int:
 
     if isinstance(v.get("ops"), dict) and v["ops"].get("xhist"):
         return replay_xhist(v, path)
-    ps = PureSys(envs.get(v["env"]), v["config"])
+    from jsim.core import construct
+
+    ps = construct(PureSys, envs.get(v["env"]), v["config"])
+    if v.get("construction_only"):
+        return 0
     try:
         execute(ps, v["ops"], Stats())
     except Violation as got:
